@@ -57,18 +57,28 @@ Fixpoint count_inflight (q : list pending) : Z :=
   | p :: r => (if 0 <? p_att p then 1 else 0) + count_inflight r
   end.
 
-(* second loop of driveSend; [infl] is the running in-flight count *)
-Fixpoint drive_q (cwnd nr dl infl : Z) (q : list pending) : list pending * list pkt :=
+(* second loop of driveSend; [infl] is the running in-flight count.
+   [fj] is the send-callback fault of this call: Some j = the (j+1)-th write of this driveSend returns an
+   error (the entry has already been marked attempts = 1 with its deadline; the loop returns at once),
+   None = every write succeeds.  Result: queue, packets written successfully, the packet whose write failed. *)
+Fixpoint drive_q (cwnd nr dl infl : Z) (fj : option nat) (q : list pending)
+  : list pending * list pkt * option pkt :=
   match q with
-  | [] => ([], [])
+  | [] => ([], [], None)
   | p :: r =>
       if 0 <? p_att p then
-        let '(r', o) := drive_q cwnd nr dl infl r in (p :: r', o)
-      else if cwnd <=? infl then (q, [])                       (* break *)
+        let '(r', o, e) := drive_q cwnd nr dl infl fj r in (p :: r', o, e)
+      else if cwnd <=? infl then (q, [], None)                       (* break *)
       else
-        let '(r', o) := drive_q cwnd nr dl (infl + 1) r in
-        (mkP (p_body p) (p_sid p) (p_ns p) 1 dl :: r',
-         mkK (Some (p_body p)) (p_sid p) (p_ns p) nr :: o)
+        let p' := mkP (p_body p) (p_sid p) (p_ns p) 1 dl in
+        let pk := mkK (Some (p_body p)) (p_sid p) (p_ns p) nr in
+        match fj with
+        | Some O => (p' :: r, [], Some pk)                           (* return err *)
+        | _ =>
+          let fj' := match fj with Some (S k) => Some k | _ => None end in
+          let '(r', o, e) := drive_q cwnd nr dl (infl + 1) fj' r in
+          (p' :: r', pk :: o, e)
+        end
   end.
 
 (* recomputeNextRTO *)
@@ -85,16 +95,19 @@ Fixpoint next_rto (q : list pending) (acc : option Z) : option Z :=
 
 Definition is_nil {A} (l : list A) : bool := match l with [] => true | _ => false end.
 
-Definition drive_send (f : conf) (c : chan) (now : Z) : chan * list pkt :=
-  let '(q', o) := drive_q (c_cwnd c) (c_nr c) (now + f_rto_init f) (count_inflight (c_q c)) (c_q c) in
-  (mkC (c_ns c) (c_nr c) (c_cwnd c) (c_ssth c) (c_pw c) q' (next_rto q' None)
-       (if is_nil o then c_zlb c else None), o).
+(* on a failed write driveSend returns before recomputeNextRTO: nextRTO keeps its old value *)
+Definition drive_send (f : conf) (c : chan) (now : Z) (fj : option nat) : chan * list pkt * option pkt :=
+  let '(q', o, e) := drive_q (c_cwnd c) (c_nr c) (now + f_rto_init f) (count_inflight (c_q c)) fj (c_q c) in
+  (mkC (c_ns c) (c_nr c) (c_cwnd c) (c_ssth c) (c_pw c) q'
+       (match e with None => next_rto q' None | Some _ => c_rto c end)
+       (if is_nil o then c_zlb c else None), o, e).
 
 (* SendSession *)
-Definition send_session (f : conf) (c : chan) (body sid now : Z) : chan * list pkt :=
+Definition send_session (f : conf) (c : chan) (body sid now : Z) (fj : option nat)
+  : chan * list pkt * option pkt :=
   let m := mkP body (u16 sid) (c_ns c) 0 0 in
   drive_send f (mkC (u16 (c_ns c + 1)) (c_nr c) (c_cwnd c) (c_ssth c) (c_pw c)
-                    (c_q c ++ [m]) (c_rto c) (c_zlb c)) now.
+                    (c_q c ++ [m]) (c_rto c) (c_zlb c)) now fj.
 
 (* ---------- ackThrough / growCwndOnAck ---------- *)
 Definition grow_cwnd (cwnd ssth pw : Z) : Z :=
@@ -112,20 +125,22 @@ Fixpoint ack_q (ack cwnd ssth pw : Z) (q : list pending) : list pending * Z * bo
       else (q, cwnd, false)
   end.
 
-Definition ack_through (f : conf) (c : chan) (ack now : Z) : chan * list pkt :=
+(* the error of the driveSend inside ackThrough is swallowed (`_ = c.driveSend(now)`) *)
+Definition ack_through (f : conf) (c : chan) (ack now : Z) (fj : option nat) : chan * list pkt * option pkt :=
   let '(q', cw, progressed) := ack_q ack (c_cwnd c) (c_ssth c) (c_pw c) (c_q c) in
   let c1 := mkC (c_ns c) (c_nr c) cw (c_ssth c) (c_pw c) q' (c_rto c) (c_zlb c) in
-  if progressed then drive_send f c1 now else (c1, []).
+  if progressed then drive_send f c1 now fj else (c1, [], None).
 
 (* ---------- Recv ---------- *)
-Definition recv (f : conf) (c : chan) (ns nr now : Z) : chan * list pkt * bool :=
-  let '(c1, o) := ack_through f c nr now in
+Definition recv (f : conf) (c : chan) (ns nr now : Z) (fj : option nat)
+  : chan * list pkt * option pkt * bool :=
+  let '(c1, o, e) := ack_through f c nr now fj in
   if negb (ns =? c_nr c1) then
     (mkC (c_ns c1) (c_nr c1) (c_cwnd c1) (c_ssth c1) (c_pw c1) (c_q c1) (c_rto c1)
-         (Some (now + f_zlb f)), o, false)
+         (Some (now + f_zlb f)), o, e, false)
   else
     (mkC (c_ns c1) (u16 (c_nr c1 + 1)) (c_cwnd c1) (c_ssth c1) (c_pw c1) (c_q c1) (c_rto c1)
-         (Some (now + f_zlb f)), o, true).
+         (Some (now + f_zlb f)), o, e, true).
 
 (* ---------- Tick ---------- *)
 Definition pow2 (k : Z) : Z := if k <? 0 then 1 else 2 ^ k.
@@ -179,13 +194,13 @@ Definition tick (f : conf) (c : chan) (now : Z) : chan * list pkt * bool * optio
                      and is dropped afterwards ("defective")
    zlb_recv = false: a ZLB only acknowledges ("repaired")
    third component: the message is handed to the protocol machine *)
-Definition dispatch (zlb_recv : bool) (f : conf) (c : chan) (p : pkt) (now : Z)
-  : chan * list pkt * bool :=
+Definition dispatch (zlb_recv : bool) (f : conf) (c : chan) (p : pkt) (now : Z) (fj : option nat)
+  : chan * list pkt * option pkt * bool :=
   match k_body p with
-  | Some _ => recv f c (k_ns p) (k_nr p) now
+  | Some _ => recv f c (k_ns p) (k_nr p) now fj
   | None =>
-      if zlb_recv then let '(c', o, _) := recv f c (k_ns p) (k_nr p) now in (c', o, false)
-      else let '(c', o) := ack_through f c (k_nr p) now in (c', o, false)
+      if zlb_recv then let '(c', o, e, _) := recv f c (k_ns p) (k_nr p) now fj in (c', o, e, false)
+      else let '(c', o, e) := ack_through f c (k_nr p) now fj in (c', o, e, false)
   end.
 
 (* ---------- an endpoint with its logs ---------- *)
@@ -209,26 +224,35 @@ Definition acked_range (e : endpoint) (qlen' : nat) : list nat :=
 (* observation of one operation, printed by both sides of the correspondence *)
 Inductive obs :=
 | ONone                                         (* operation did not apply *)
-| OSubmit (o : list pkt)
-| ODeliver (handed : bool) (o : list pkt)
-| OTick (ret : option Z) (o : list pkt) (dead : bool)
+| OSubmit (o : list pkt) (failed : option pkt)               (* failed: the write that returned an error *)
+| ODeliver (handed : bool) (o : list pkt) (failed : option pkt)
+| OTick (ret : option Z) (o : list pkt) (dead : bool)        (* o: every write attempted, failed ones included *)
 | OWin.
 
-Definition ep_submit (e : endpoint) (body sid now : Z) : endpoint * obs :=
-  let '(c', o) := send_session (e_f e) (e_ch e) body sid now in
+(* e_sent logs the packets whose write succeeded (only those can reach the peer) *)
+Definition ep_submit (e : endpoint) (body sid now : Z) (fj : option nat) : endpoint * obs :=
+  let '(c', o, er) := send_session (e_f e) (e_ch e) body sid now fj in
   (mkE (e_f e) c' (e_sent e ++ o) (e_sub e ++ [body]) (e_del e) (e_acked e) (e_dead e) (e_wmax e),
-   OSubmit o).
+   OSubmit o er).
 
-Definition ep_deliver (zlb_recv : bool) (e : endpoint) (p : pkt) (now : Z) : endpoint * obs :=
-  let '(c', o, handed) := dispatch zlb_recv (e_f e) (e_ch e) p now in
+Definition ep_deliver (zlb_recv : bool) (e : endpoint) (p : pkt) (now : Z) (fj : option nat) : endpoint * obs :=
+  let '(c', o, er, handed) := dispatch zlb_recv (e_f e) (e_ch e) p now fj in
   (mkE (e_f e) c' (e_sent e ++ o) (e_sub e)
        (match k_body p with Some b => if handed then e_del e ++ [b] else e_del e | None => e_del e end)
        (e_acked e ++ acked_range e (length (c_q c'))) (e_dead e) (e_wmax e),
-   ODeliver handed o).
+   ODeliver handed o er).
 
-Definition ep_tick (e : endpoint) (now : Z) : endpoint * obs :=
+(* Tick ignores write errors (`_ = c.send(...)`): the channel state does not depend on them; [drops] are the
+   positions, among the writes of this Tick, that fail and therefore never reach the network *)
+Fixpoint keep_ok (drops : list nat) (i : nat) (o : list pkt) : list pkt :=
+  match o with
+  | [] => []
+  | p :: r => if existsb (Nat.eqb i) drops then keep_ok drops (S i) r else p :: keep_ok drops (S i) r
+  end.
+
+Definition ep_tick (e : endpoint) (now : Z) (drops : list nat) : endpoint * obs :=
   let '(c', o, dead, ret) := tick (e_f e) (e_ch e) now in
-  (mkE (e_f e) c' (e_sent e ++ o) (e_sub e) (e_del e) (e_acked e)
+  (mkE (e_f e) c' (e_sent e ++ keep_ok drops 0 o) (e_sub e) (e_del e) (e_acked e)
        (if dead then S (e_dead e) else e_dead e) (e_wmax e),
    OTick ret o dead).
 
@@ -246,23 +270,24 @@ Definition set_ep (s : sys) (x : side) (e : endpoint) : sys :=
   match x with SA => mkS e (s_b s) | SB => mkS (s_a s) e end.
 
 Inductive event :=
-| Submit (x : side) (body sid now : Z)     (* x's protocol machine sends a message *)
-| Deliver (x : side) (idx : nat) (now : Z) (* the network hands x the idx-th packet its peer ever sent;
-                                              never = drop, twice = duplicate, any order = reorder/delay *)
-| Inject (x : side) (p : pkt) (now : Z)    (* a packet the peer never sent (hostile network) *)
-| Tick (x : side) (now : Z)
+(* fj / drops: which writes of the send callback fail during this operation (None / [] = none) *)
+| Submit (x : side) (body sid now : Z) (fj : option nat)     (* x's protocol machine sends a message *)
+| Deliver (x : side) (idx : nat) (now : Z) (fj : option nat) (* the network hands x the idx-th packet its peer
+                                              ever wrote successfully; never = drop, twice = duplicate, any order = reorder/delay *)
+| Inject (x : side) (p : pkt) (now : Z) (fj : option nat)    (* a packet the peer never sent (hostile network) *)
+| Tick (x : side) (now : Z) (drops : list nat)
 | SetWin (x : side) (rws : Z).
 
 Definition step (zlb_recv : bool) (s : sys) (ev : event) : sys * obs :=
   match ev with
-  | Submit x body sid now => let '(e, o) := ep_submit (ep s x) body sid now in (set_ep s x e, o)
-  | Deliver x idx now =>
+  | Submit x body sid now fj => let '(e, o) := ep_submit (ep s x) body sid now fj in (set_ep s x e, o)
+  | Deliver x idx now fj =>
       match nth_error (e_sent (ep s (peer x))) idx with
-      | Some p => let '(e, o) := ep_deliver zlb_recv (ep s x) p now in (set_ep s x e, o)
+      | Some p => let '(e, o) := ep_deliver zlb_recv (ep s x) p now fj in (set_ep s x e, o)
       | None => (s, ONone)
       end
-  | Inject x p now => let '(e, o) := ep_deliver zlb_recv (ep s x) p now in (set_ep s x e, o)
-  | Tick x now => let '(e, o) := ep_tick (ep s x) now in (set_ep s x e, o)
+  | Inject x p now fj => let '(e, o) := ep_deliver zlb_recv (ep s x) p now fj in (set_ep s x e, o)
+  | Tick x now drops => let '(e, o) := ep_tick (ep s x) now drops in (set_ep s x e, o)
   | SetWin x rws => let '(e, o) := ep_setwin (ep s x) rws in (set_ep s x e, o)
   end.
 
@@ -278,7 +303,7 @@ Definition init_sys (fa fb : Z * Z * Z * Z * Z) (oa ob : Z) : sys :=
   let '(bi, bm, br, bz, bw) := fb in
   mkS (new_endpoint ai am ar az aw oa ob) (new_endpoint bi bm br bz bw ob oa).
 
-Definition is_inject (ev : event) : bool := match ev with Inject _ _ _ => true | _ => false end.
+Definition is_inject (ev : event) : bool := match ev with Inject _ _ _ _ => true | _ => false end.
 Definition honest (evs : list event) : bool := forallb (fun e => negb (is_inject e)) evs.
 
 (* ---------- the whole dispatch rule for one tunnel (dispatch.go Dispatch, after parsing) ----------
@@ -295,13 +320,13 @@ Record inmsg := mkM { m_tid_ok : bool;     (* the header's tunnel id names this 
                       m_removes : bool }.
 
 Definition ep_submits (e : endpoint) (rs : list (Z * Z)) (now : Z) : endpoint :=
-  fold_left (fun e r => fst (ep_submit e (fst r) (snd r) now)) rs e.
+  fold_left (fun e r => fst (ep_submit e (fst r) (snd r) now None)) rs e.
 
 Definition node_dispatch (n : node) (m : inmsg) (now : Z) : node :=
   if n_known n && m_tid_ok m then
-    let '(e1, ob) := ep_deliver false (n_ep n) (m_pkt m) now in
+    let '(e1, ob) := ep_deliver false (n_ep n) (m_pkt m) now None in
     match ob with
-    | ODeliver true _ => mkN (negb (m_removes m)) (ep_submits e1 (m_replies m) now)
+    | ODeliver true _ _ => mkN (negb (m_removes m)) (ep_submits e1 (m_replies m) now)
     | _ => mkN true e1
     end
   else n.
@@ -310,7 +335,7 @@ Inductive nevent := NMsg (m : inmsg) (now : Z) | NTick (now : Z).
 Definition node_step (n : node) (ev : nevent) : node :=
   match ev with
   | NMsg m now => node_dispatch n m now
-  | NTick now => mkN (n_known n) (fst (ep_tick (n_ep n) now))
+  | NTick now => mkN (n_known n) (fst (ep_tick (n_ep n) now []))
   end.
 Definition node_run (n : node) (evs : list nevent) : node := fold_left node_step evs n.
 
@@ -320,3 +345,11 @@ Definition advertised (adv : option Z) : Z := match adv with Some w => w | None 
 Definition apply_peer_window (e : endpoint) (adv : option Z) : endpoint :=
   let c' := set_peer_window (e_ch e) (advertised adv) in
   mkE (e_f e) c' (e_sent e) (e_sub e) (e_del e) (e_acked e) (e_dead e) (c_pw c').
+
+(* ---------- the tunnel runner's timer (internal/l2tp/runner.go loop) ----------
+   after a Tick at [now] that returned [ret] the next Tick happens at: *)
+Definition runner_next (ret : option Z) (now : Z) : Z :=
+  match ret with
+  | None => now + 500                                   (* nothing pending: poll again in 500 ms, never park *)
+  | Some t => now + (if t - now <? 50 then 50 else t - now)
+  end.
